@@ -351,15 +351,18 @@ def orNone : Option Bytes → Option Bytes
   | some [] => none
   | x => x
 
+/-- "If the ro_uri definitely fails the constraint": the error of `uri.from_string(given_ro_uri, deep_immutable)`
+when that is an `UnknownURI` (possibly None), else None -/
+def roError (ro : Option Bytes) (deep : Bool) : Option Err :=
+  match ro with
+  | some r => (match fromString deep r with
+               | .unknown _ e => e
+               | _ => none)
+  | none => none
+
 /-- the tail of `UnknownNode.__init__` from "If the ro_uri definitely fails the constraint" on -/
 def unknownNodeFinish (rw ro : Option Bytes) (deep : Bool) : UnknownNode :=
-  let err : Option Err :=
-    match ro with
-    | some r => (match fromString deep r with
-                 | .unknown _ e => e
-                 | _ => none)
-    | none => none
-  if err.isSome then { error := err, rw := none, ro := none }
+  if (roError ro deep).isSome then { error := roError ro deep, rw := none, ro := none }
   else if deep then
     { error := none, rw := none,
       ro := ro.map (fun r =>
